@@ -193,16 +193,12 @@ func (s *c06) Final(w *World) *Violation {
 	return v
 }
 
-// resumeDesync: the traversal loads, from the requestor's own store, a block the responder lacks.
+// resumeDesync: on resume the requestor asks to skip every block it has traversed
+// so far - a position in its own link sequence; the responder's own sequence differs
+// from it somewhere (the requestor descended through a block the responder lacks).
 func (s *c06) resumeDesync() bool {
 	csel, _ := CanonicalSelector(s.sel)
-	ref := Ref(s.dag.Root, csel, SplitResolver(s.dag, s.split), 0)
-	for _, l := range ref.Loads {
-		if l.Found && s.split.Rq[l.Cid] && !s.split.Rs[l.Cid] {
-			return true
-		}
-	}
-	return false
+	return LinkSeqDiverge(s.dag, csel, s.split, 1<<30)
 }
 
 // lateOldStream: a response message for the request that the responder sent
